@@ -106,7 +106,7 @@ class Check:
                 v = ev3(fm, pe.truth)
             except Exception:  # noqa
                 v = None
-            if v is None and _unresolved(c.test):
+            if v is None and (getattr(self, 'strict_guards', False) or _unresolved(c.test)):
                 return _ast.unparse(c.test)[:120]
         return None
 
